@@ -84,3 +84,49 @@ def stream_transformations_jac(R, tier, seed):
     if hit:
         R.known_hits.append(KEY_F01)
     S["Taper"]["coq_errors"] = errs
+
+
+def stream_multisection_jac(R, tier, seed):
+    """GeomMultiUnification and GeomMultiJoin: values and (constant) Jacobians vs Model/MultiSec.v"""
+    from openaerostruct.geometry.geometry_unification import GeomMultiUnification
+    from openaerostruct.geometry.geometry_multi_join import GeomMultiJoin
+    S1 = R.stream("GeomMultiUnification.jacobian"); S2 = R.stream("GeomMultiJoin.jacobian")
+    cc = CoqCases("jmultisec", "MultiSec"); meta = []
+    rng = gen.stable_rng(seed, "jmultisec")
+    for nsec in (2, 3):
+        for shift in (True, False):
+            nx = int(rng.integers(2, 4))
+            nys = [int(rng.integers(2, 4)) for _ in range(nsec)]
+            meshes = [rng.normal(size=(nx, ny, 3)) for ny in nys]
+            sections = [{"name": "s%d" % i, "mesh": meshes[i], "symmetry": True} for i in range(nsec)]
+            ins = {"s%d_def_mesh" % i: meshes[i] for i in range(nsec)}
+            o, J, _ = core.run_comp(GeomMultiUnification(sections=sections, surface_name="w", shift_uni_mesh=shift), ins)
+            D = DJ().lit("nx", nat(nx)).lit("shift", boolc(shift))
+            for i in range(nsec): D.inp("m%d" % i, meshes[i], "s%d_def_mesh" % i)
+            uny = o["w_uni_mesh"].shape[1]
+            secs = "[" + "; ".join("(%s, {m%d})" % (nat(nys[i]), i) for i in range(nsec)) + "]"
+            out = "T3 {nx} %s 3 (fst (unify {shift} %s))" % (nat(uny), secs)
+            je, jl = D.jac_errs(out, J, ["w_uni_mesh"])
+            cid = cc.add("(re (%s) %s :: %s)" % (D.vals(out), arr(o["w_uni_mesh"]), je))
+            meta.append((cid, S1, ["uni_mesh"] + jl, {"comp": "GeomMultiUnification", "sections": nsec, "nx": nx, "ny": nys, "shift_uni_mesh": shift}))
+            # joining constraint along x (default) and along all axes
+            for dims in ([0], [0, 1, 2]):
+                dim_constr = [np.array([1 if d in dims else 0 for d in range(3)]) for _ in range(nsec - 1)]
+                ins2 = {"s%d_join_mesh" % i: meshes[i] for i in range(nsec)}
+                o2, J2, _ = core.run_comp(GeomMultiJoin(sections=sections, dim_constr=dim_constr), ins2)
+                D2 = DJ().lit("npx", nat(nx - 1))
+                for i in range(nsec): D2.inp("m%d" % i, meshes[i], "s%d_join_mesh" % i)
+                terms = []
+                for e in range(nsec - 1):
+                    for r in (0, 1):
+                        for d in dims:
+                            terms.append("join_sep {npx} %s {m%d} {m%d} %d%%nat %d%%nat" % (nat(nys[e]), e, e + 1, r, d))
+                out2 = "[" + "; ".join(terms) + "]"
+                je2, jl2 = D2.jac_errs(out2, J2, ["section_separation"])
+                cid = cc.add("(re (%s) %s :: %s)" % (D2.vals(out2), arr(o2["section_separation"]), je2))
+                meta.append((cid, S2, ["section_separation"] + jl2, {"comp": "GeomMultiJoin", "sections": nsec, "dims": dims}))
+            R.mark("jms", nsec, shift)
+    res, errs = cc.run(shard=4)
+    for cid, St, labels, desc in meta:
+        judge(St, res.get(cid), labels, desc, tol=JTOL)
+    S1["coq_errors"] = errs
